@@ -11,7 +11,7 @@ CFG = dict(
     rule="schedule-driven: 1-3 producer goroutines calling Emit, the stream's own consumer goroutine and a Stop caller are parked at the verif yield points "
          "(send.lock/send.send/expand.*/drop.*/block.*/cons.recv/stop.*) and released one at a time by the op list (uniform random interleavings, producer bursts, slow consumer, "
          "directed 'consumer acts during a migration', Stop in 10 % of the cases); strategies drop/block(+timeout)/expand, buffer sizes 1-4, ceilings around the size, growth 1.25-3 and defaults, "
-         "increments 0(default 1000)-3, thresholds 0.25-1 and default; every case ends with a quiescing round-robin and GetStats(). distinct = distinct (cfg, op list)",
+         "increments 0(default 1000)-3, thresholds 0.25-1 and default; every case ends with a quiescing round-robin and GetStats(). distinct = distinct (cfg, op list) Added late: two failing Execute calls before the real one on one case in six (`badfirst`). Every fifth case runs under WithHighPerformance (`preset high`), for C05/C06/C12/C13/C14/C16/C20 another fifth under WithLowLatency (`preset low`); every seventh case follows a noise prelude (failing statements, malformed rows, panicking sink / function in other instances).",
     assumptions=["sync.RWMutex gives mutual exclusion with writer preference; buffered channels are FIFO and a receive hands the head to exactly one receiver (Go runtime semantics)",
                  "each code segment between two yield points touches shared state at one point only (atomic in the model); the yield points were placed accordingly",
                  "DataChannelSize >= 1 (an unbuffered input channel is not modelled); a migration never takes 5 s",
